@@ -205,7 +205,7 @@ func TestC09(t *testing.T) {
 	r := ev.Start("C09", "fault_enumeration")
 	r.Rule("leak ledger over fault enumeration: same cells as C02 plus decrypt operations and a session-cache configuration; fault domains = metastore, KMS, AEAD call k fails, secret allocation k fails, secret access k refused / its release fails after the callback ran (every single position; pairs sampled in quick, all in thorough). The tracking SecretFactory accounts for every secret: the data key of an encrypt must be closed when the call returns; with caching disabled every secret created by the call must be closed at return; after session and factory Close every secret must have been closed (no leak) and never touched afterwards. Seeded histories (hist engine, OC09), the C14 duplicate-key schedules and the gRPC sidecar's stream handler (streams ending normally or aborted after get-session / after traffic, with and without session caching) run the same ledger. Distinct+non-trivial: (cell, fault plan) pairs in which a fault fired.")
 	r.Assume("the ledger wraps the real memguard/protectedmemory factories through WithSecretFactory, so it sees every secret the SDK allocates")
-	cs := cells([]string{"simple", "nocache", "lru1-shared", "sesscache"}, []string{"enc", "dec"})
+	cs := cells([]string{"simple", "nocache", "lru1-shared", "sesscache", "sesscache+shared"}, []string{"enc", "dec"})
 	explore(t, r, "C09", cs, map[string]bool{"ms": true, "kms": true, "aead": true, "alloc": true, "access": true}, ev.Pick(12, 100))
 	// the same cells with the real secure-memory implementations on a monitored memcall: every single memory
 	// primitive (alloc, lock, protect, unlock, free) of the operation fails in turn - a real failure inside the
